@@ -1,1 +1,14 @@
-pub fn x(){}
+//! Verification harness for gendx/lzma-rs: reference model, generators, I/O
+//! fault wrappers and one oracle per property (C01..C18).
+pub mod alloc;
+#[cfg(feature = "liblzma")]
+pub mod ffi_liblzma;
+pub mod gen;
+pub mod iowrap;
+pub mod props;
+pub mod refmodel;
+pub mod runner;
+pub mod sut;
+
+#[global_allocator]
+static GLOBAL: alloc::Counting = alloc::Counting;
